@@ -10,10 +10,14 @@ Fixpoint lookupN {A} (d : A) (k : N) (l : list (N * A)) : A :=
   match l with [] => d | (k', v) :: r => if N.eqb k k' then v else lookupN d k r end.
 Definition mk_env (ne : list bool) (bk : list (list item)) (fmt : list (list (N * list item)))
            (users : list (list item)) (parses : list (str * option ptree))
-           (srcs : list (outcome (list str))) (files : list iid) : env :=
+           (srcs : list (outcome (list str))) (files : list iid)
+           (bkvars : list vars) (fmtvars : list (list (N * vars))) (uservars : list vars) : env :=
   {| e_ne := nthN false ne; e_bk := nthN [] bk;
      e_fmt := fun c f => lookupN [] f (nthN [] fmt c);
      e_user := nthN [] users;
+     e_bkvars := nthN [] bkvars;
+     e_fmtvars := fun c f => lookupN [] f (nthN [] fmtvars c);
+     e_uservars := nthN [] uservars;
      e_parse := fun k => match lookup k parses with Some (Some t) => Some t | _ => None end;
      e_src := nthN (SigmaErr 99) srcs;
      e_files := files |}.
@@ -103,8 +107,9 @@ Definition judge_history (c : env * list op * list iout * option iout * list iou
       (* the probe in a world where nothing has happened *)
       let cfg := nth (probed probe) (news ops) (0, None) in
       let collect := match nth_error (w_bks w) (probed probe) with Some bk => b_collect bk | None => false end in
-      let '(_, out_f) := step E (fst (step E init (ONew (fst cfg) (snd cfg) collect))) (retarget probe) in
-      let w0 := fst (step E init (ONew (fst cfg) (snd cfg) collect)) in
+      let opts := match nth_error (w_bks w) (probed probe) with Some bk => b_opts bk | None => [] end in
+      let '(_, out_f) := step E (fst (step E init (ONew (fst cfg) (snd cfg) collect opts))) (retarget probe) in
+      let w0 := fst (step E init (ONew (fst cfg) (snd cfg) collect opts)) in
       let agree_fresh := match ifresh with Some i => out_agrees out_f i | None => negb (is_conv probe) end
                          && all2 (fun o i => out_agrees (snd (step E w0 o)) i) (rules_of_probe probe) ieach in
       (* the property on the implementation's own outputs: after the history = fresh *)
